@@ -11,6 +11,7 @@ import (
 	"sync/atomic"
 	"testing"
 	"testing/synctest"
+	"time"
 
 	"github.com/openconfig/gnmi/cache"
 	"github.com/openconfig/gnmi/ctree"
@@ -49,6 +50,11 @@ import (
 //	        is still subscribed is ended first)
 //	end     client Client's RPC is cancelled
 //	notify  Server.Update(leaf) for a notification with prefix NPrefix
+//
+// Sleep: after the op (and its verdicts) the harness sleeps that long in
+// VIRTUAL time (synctest bubble) and then demands that nothing reached any
+// subscriber: no notification may be offered again because time passes
+// (sample intervals and heartbeats of a request are not implemented).
 type SrvOp struct {
 	Kind        string   `json:"kind"`
 	Client      int      `json:"client,omitempty"`
@@ -56,12 +62,19 @@ type SrvOp struct {
 	UpdatesOnly bool     `json:"updates_only,omitempty"`
 	Notif       *Notif   `json:"notif,omitempty"`
 	NPrefix     *GPath   `json:"nprefix,omitempty"`
+	Sleep       int64    `json:"sleep_ns,omitempty"`
 }
 
 // SrvScenario is a sequence of operations on one fresh subscribe.Server whose
 // cache knows the targets "a" and "b".
+//
+// SameValue: every update of every notification carries the same value (0)
+// instead of its own timestamp, so that repeated notifications for one path
+// are "redundant" in the sense of suppress_redundant. Values are irrelevant to
+// the property; which leaf object is offered is what is observed.
 type SrvScenario struct {
-	Ops []SrvOp `json:"ops"`
+	Ops       []SrvOp `json:"ops"`
+	SameValue bool    `json:"same_value,omitempty"`
 }
 
 // srvTargets are the targets the cache of the server part knows: a, b and
@@ -125,6 +138,17 @@ func (s *fakeStream) Recv() (*pb.SubscribeRequest, error) {
 	return nil, s.ctx.Err()
 }
 
+// snapshot copies the per-notification response counts.
+func (s *fakeStream) snapshot() map[int64]int {
+	s.mu.Lock()
+	defer s.mu.Unlock()
+	out := make(map[int64]int, len(s.sent))
+	for k, v := range s.sent {
+		out[k] = v
+	}
+	return out
+}
+
 func (s *fakeStream) sentFor(ts int64) int {
 	s.mu.Lock()
 	defer s.mu.Unlock()
@@ -176,6 +200,10 @@ type srvStats struct {
 	oddTarget, twinNotOffered                          bool
 	// container shapes (atomic.go)
 	atoms atomStats
+	// request fields the server does not implement (dress.go)
+	dress dressStats
+	// what the dressed-vs-plain comparison looks at (not part of the evidence)
+	trace []string
 }
 
 func (s srvStats) labels() []string {
@@ -215,6 +243,7 @@ func (s srvStats) labels() []string {
 	add(s.longPath, "path-with-6plus-elements")
 	add(s.crowd, "path-registered-by-3plus-clients")
 	add(s.oddTarget, "target-with-joiner")
+	l = append(l, s.dress.labels()...)
 	return append(l, s.atoms.labels()...)
 }
 
@@ -239,12 +268,30 @@ func isTargetDeleteShape(n *Notif, prefix *GPath) bool {
 	return len(p) == 1 && p[0] == Glob
 }
 
-// runServer executes sc inside its own synctest bubble.
+// runServer executes sc inside its own synctest bubble. A scenario whose
+// requests carry values in fields the server does not implement is then
+// executed once more, on a fresh server in a second bubble, with those fields
+// left out: step by step both runs must have been observed alike (offers per
+// notification and subscriber, live RPCs, the subscription trie). Real code on
+// both sides; no model is involved in that comparison.
 func runServer(t *testing.T, sc *SrvScenario, open map[string]bool) (st srvStats, err error) {
 	synctest.Test(t, func(*testing.T) {
 		st, err = runServerInBubble(sc, open)
 	})
-	return st, err
+	if err != nil || !srvDressed(sc) {
+		return st, err
+	}
+	var pst srvStats
+	var perr error
+	plain := plainSrv(sc)
+	synctest.Test(t, func(*testing.T) {
+		pst, perr = runServerInBubble(plain, open)
+	})
+	st.dress.twin = true
+	if perr != nil {
+		return st, fmt.Errorf("the scenario passes with the unimplemented request fields set and fails with them left out: %v", perr)
+	}
+	return st, compareTraces(st.trace, pst.trace)
 }
 
 type liveSub struct {
@@ -252,6 +299,11 @@ type liveSub struct {
 	queries [][]string
 	statKey string
 	coal    int64
+	// response counts per notification at the last accounting
+	seen map[int64]int
+	// dressings of the subscriptions naming each registration path
+	byPath  map[string][]SubDress
+	dressed bool
 }
 
 func runServerInBubble(sc *SrvScenario, open map[string]bool) (st srvStats, err error) {
@@ -285,14 +337,17 @@ func runServerInBubble(sc *SrvScenario, open map[string]bool) (st srvStats, err 
 		}
 	}()
 
+	lastCensus := ""
 	checkCensus := func(i int, what string) error {
 		got, cerr := census(srv)
 		if cerr != nil {
 			// The trie is internal: if it was refactored the census clause cannot
 			// be evaluated. That is not a violation; the other oracles carry on.
 			censusUnavailable.Store(cerr.Error())
+			lastCensus = " (unavailable)"
 			return nil
 		}
+		lastCensus = censusString(got)
 		want := map[string]int{}
 		for _, ls := range live {
 			for _, q := range ls.queries {
@@ -351,7 +406,48 @@ func runServerInBubble(sc *SrvScenario, open map[string]bool) (st srvStats, err 
 		return nil
 	}
 
+	// checkQuiet: at a quiescent point at which no notification was handed to the
+	// server since the last accounting, nothing may have reached any subscriber:
+	// a response carrying a notification, or a coalesced duplicate, would be a
+	// further offer of a notification that was judged already.
+	checkQuiet := func(i int, when string) error {
+		stats := srv.ClientStats()
+		var ids []int
+		for c := range live {
+			ids = append(ids, c)
+		}
+		sort.Ints(ids)
+		for _, c := range ids {
+			ls := live[c]
+			now := ls.stream.snapshot()
+			var tss []int64
+			for ts := range now {
+				tss = append(tss, ts)
+			}
+			sort.Slice(tss, func(a, b int) bool { return tss[a] < tss[b] })
+			for _, ts := range tss {
+				if now[ts] != ls.seen[ts] {
+					return fmt.Errorf("op %d, %s: client %d (subscription paths %q) was sent the notification of op %d %d more time(s) although no notification was handed to the server meanwhile", i, when, c, ls.queries, ts-1, now[ts]-ls.seen[ts])
+				}
+			}
+			if coal := stats[ls.statKey].CoalesceCount; coal != ls.coal {
+				return fmt.Errorf("op %d, %s: %d more coalesced duplicate(s) for client %d (subscription paths %q) although no notification was handed to the server meanwhile", i, when, coal-ls.coal, c, ls.queries)
+			}
+		}
+		return nil
+	}
+	liveLine := func() string {
+		var ids []int
+		for c := range live {
+			ids = append(ids, c)
+		}
+		sort.Ints(ids)
+		return fmt.Sprintf("live clients %v", ids)
+	}
+	st.dress.sameValue = sc.SameValue
+
 	for i, op := range sc.Ops {
+		var line []string
 		switch op.Kind {
 		case "sub":
 			if op.List == nil || op.List.Prefix == nil || op.List.Prefix.Target == "" {
@@ -392,7 +488,7 @@ func runServerInBubble(sc *SrvScenario, open map[string]bool) (st srvStats, err 
 			addr := &net.TCPAddr{IP: net.IPv4(127, 0, 0, 1), Port: 1000 + op.Client}
 			ctx, cancel := context.WithCancel(peer.NewContext(context.Background(), &peer.Peer{Addr: addr}))
 			fs := &fakeStream{ctx: ctx, cancel: cancel, done: make(chan error, 1), sent: map[int64]int{},
-				req: &pb.SubscribeRequest{Request: &pb.SubscribeRequest_Subscribe{Subscribe: l.proto(pb.SubscriptionList_STREAM, op.UpdatesOnly)}}}
+				req: l.request(pb.SubscriptionList_STREAM, op.UpdatesOnly)}
 			go func() { fs.done <- srv.Subscribe(fs) }()
 			synctest.Wait()
 			select {
@@ -401,7 +497,9 @@ func runServerInBubble(sc *SrvScenario, open map[string]bool) (st srvStats, err 
 				return st, fmt.Errorf("op %d: Subscribe of client %d returned at once: %v", i, op.Client, e)
 			default:
 			}
-			live[op.Client] = &liveSub{stream: fs, queries: refQueries(l), statKey: fmt.Sprintf("%s:%p", addr, fs.req)}
+			live[op.Client] = &liveSub{stream: fs, queries: refQueries(l), statKey: fmt.Sprintf("%s:%p", addr, fs.req),
+				seen: map[int64]int{}, byPath: subDresses(l), dressed: l.dressed()}
+			st.dress.seeList(l)
 			for _, q := range live[op.Client].queries {
 				rc.add(op.Client, q)
 			}
@@ -411,13 +509,20 @@ func runServerInBubble(sc *SrvScenario, open map[string]bool) (st srvStats, err 
 			if l.Prefix.Target != "a" && l.Prefix.Target != "b" && l.Prefix.Target != Glob {
 				st.oddTarget = true
 			}
-		case "end":
-			if live[op.Client] == nil {
-				break
-			}
-			if err := end(i, op.Client); err != nil {
+			if err := checkQuiet(i, "after the Subscribe of client "+strconv.Itoa(op.Client)); err != nil {
 				return st, err
 			}
+			line = append(line, liveLine())
+		case "end":
+			if live[op.Client] != nil {
+				if err := end(i, op.Client); err != nil {
+					return st, err
+				}
+			}
+			if err := checkQuiet(i, "after the end of the RPC of client "+strconv.Itoa(op.Client)); err != nil {
+				return st, err
+			}
+			line = append(line, liveLine())
 		case "notify":
 			if op.Notif == nil || op.Notif.entries() == 0 || op.NPrefix == nil {
 				return st, fmt.Errorf("op %d: notify needs entries and a prefix", i)
@@ -432,6 +537,11 @@ func runServerInBubble(sc *SrvScenario, open map[string]bool) (st srvStats, err 
 			}
 			ts := int64(i + 1)
 			n := op.Notif.proto(ts, op.NPrefix.proto())
+			if sc.SameValue {
+				for _, u := range n.Update {
+					u.Val = &pb.TypedValue{Value: &pb.TypedValue_IntVal{IntVal: 0}}
+				}
+			}
 			at := []string{"n", strconv.Itoa(i)}
 			if aerr := leaves.Add(at, n); aerr != nil {
 				return st, fmt.Errorf("op %d: harness leaf: %v", i, aerr)
@@ -457,6 +567,7 @@ func runServerInBubble(sc *SrvScenario, open map[string]bool) (st srvStats, err 
 			}
 			sort.Ints(ids)
 			anyCompat, anyIncompat, anyMulti := false, false, false
+			offeredDressed, offeredPlain := false, false
 			var allQueries [][]string
 			for _, c := range ids {
 				allQueries = append(allQueries, live[c].queries...)
@@ -502,6 +613,23 @@ func runServerInBubble(sc *SrvScenario, open map[string]bool) (st srvStats, err 
 				describe := func() string {
 					return fmt.Sprintf("client %d (subscription paths %q) for the notification with entry paths %q", c, ls.queries, entries)
 				}
+				line = append(line, fmt.Sprintf("client %d offered %d time(s)", c, offered))
+				// Everything that reached the stream since the last accounting must carry THIS notification.
+				now := ls.stream.snapshot()
+				var olds []int64
+				for ots := range now {
+					if ots != ts && now[ots] != ls.seen[ots] {
+						olds = append(olds, ots)
+					}
+				}
+				if len(olds) > 0 {
+					sort.Slice(olds, func(a, b int) bool { return olds[a] < olds[b] })
+					return st, fmt.Errorf("op %d: while this notification was handed to the server, client %d (subscription paths %q) was sent the earlier notification of op %d %d more time(s)", i, c, ls.queries, olds[0]-1, now[olds[0]]-ls.seen[olds[0]])
+				}
+				ls.seen = now
+				if len(hit) > 0 && ls.dressed {
+					st.dress.seeHit(ls.byPath, hit)
+				}
 				switch {
 				case compat == 0 && offered != 0:
 					return st, fmt.Errorf("op %d: offered %d time(s) although no subscription path is compatible: %s", i, offered, describe())
@@ -517,6 +645,8 @@ func runServerInBubble(sc *SrvScenario, open map[string]bool) (st srvStats, err 
 				if compat > 0 {
 					anyCompat = true
 					st.offeredSome = true
+					offeredDressed = offeredDressed || ls.dressed
+					offeredPlain = offeredPlain || !ls.dressed
 				}
 				if compat >= 2 {
 					anyMulti = true
@@ -524,6 +654,9 @@ func runServerInBubble(sc *SrvScenario, open map[string]bool) (st srvStats, err 
 			}
 			if !anyCompat {
 				st.offeredNone = true
+			}
+			if offeredDressed && offeredPlain {
+				st.dress.hitDressedAndPlain = true
 			}
 			if anyCompat && anyIncompat {
 				st.mixed = true
@@ -539,6 +672,18 @@ func runServerInBubble(sc *SrvScenario, open map[string]bool) (st srvStats, err 
 		}
 		if err := checkCensus(i, op.Kind); err != nil {
 			return st, err
+		}
+		st.trace = append(st.trace, traceLine(i, op.Kind, append(line, "registered:"+lastCensus)))
+		if op.Sleep > 0 {
+			time.Sleep(time.Duration(op.Sleep))
+			synctest.Wait()
+			st.dress.slept = true
+			if time.Duration(op.Sleep) >= time.Minute {
+				st.dress.sleptLong = true
+			}
+			if err := checkQuiet(i, fmt.Sprintf("after %v of virtual time without any notification", time.Duration(op.Sleep))); err != nil {
+				return st, err
+			}
 		}
 	}
 	// every subscriber leaves: nothing may stay registered
